@@ -84,6 +84,6 @@ theorem erase_split (y : Nat) (pre post : List Nat) (h : y ∉ pre) :
   | cons p ps ih =>
     have hp : p ≠ y := by intro e; exact h (by simp [e])
     have hps : y ∉ ps := by intro e; exact h (by simp [e])
-    simp [List.erase_cons, hp, ih hps]
+    simp [hp, ih hps]
 
 end LyModel.Diff.UO
